@@ -306,6 +306,14 @@ class CellVariable:
                                 np.logical_or(self.value, other),
                                 deepcopy(self.BCs))
     
+    def __rand__(self, other):
+        # logical 'and' is commutative (scalar or array on the left)
+        return self.__and__(other)
+
+    def __ror__(self, other):
+        # logical 'or' is commutative (scalar or array on the left)
+        return self.__or__(other)
+
     def __abs__(self):
         return CellVariable(self.domain,
                             np.abs(self.value),
